@@ -8,6 +8,7 @@ import (
 	"reflect"
 	"sort"
 	"strings"
+	"sync"
 
 	"go.uber.org/dig"
 
@@ -174,7 +175,7 @@ func itemType(it SigItem) reflect.Type {
 	}
 	var fs []reflect.StructField
 	switch it.K {
-	case "in":
+	case "in", "inl":
 		tag := reflect.StructTag("")
 		if it.Iu != "" {
 			tag = reflect.StructTag(fmt.Sprintf(`ignore-unexported:%q`, it.Iu))
@@ -192,6 +193,10 @@ func itemType(it SigItem) reflect.Type {
 			sf.PkgPath = "verif/harness/run"
 		}
 		fs = append(fs, sf)
+	}
+	if it.K == "inl" {
+		// the embed comes last
+		fs = append(fs[1:], fs[0])
 	}
 	return reflect.StructOf(fs)
 }
@@ -231,6 +236,11 @@ func BuildSig(s Sig) interface{} {
 	}).Interface()
 }
 
+var (
+	sigCbMu    sync.Mutex
+	sigCbNames []string // callback names that differ from the designated function
+)
+
 func sigProvideOpts(o SigOpts) []dig.ProvideOption {
 	var opts []dig.ProvideOption
 	if o.Name != "" {
@@ -248,10 +258,18 @@ func sigProvideOpts(o SigOpts) []dig.ProvideOption {
 		opts = append(opts, dig.LocationForPC(reflect.ValueOf(sigProvideOpts).Pointer()))
 	}
 	if o.Cb {
+		want := "reflect.makeFuncStub"
+		if o.Loc == "real" {
+			want = "verif/harness/run.sigProvideOpts" // the function LocationForPC designates
+		}
 		opts = append(opts, dig.WithProviderCallback(func(ci dig.CallbackInfo) {
-			_ = ci.Name
 			if ci.Error != nil {
 				_ = ci.Error.Error()
+			}
+			if (o.Loc == "" || o.Loc == "real") && ci.Name != want {
+				sigCbMu.Lock()
+				sigCbNames = append(sigCbNames, fmt.Sprintf("callback Name want %q got %q", want, ci.Name))
+				sigCbMu.Unlock()
 			}
 		}))
 	}
@@ -412,6 +430,11 @@ func consumerOf(rs []SigR) interface{} {
 		if r.Grp != "" {
 			t = reflect.SliceOf(t)
 			tag = fmt.Sprintf(`group:%q`, r.Grp)
+			if r.Ty == "T0" {
+				// the same group consumed as two different named slice types as well
+				fs = append(fs, reflect.StructField{Name: fmt.Sprintf("R%dn", len(fs)), Type: reflect.TypeOf(univ.NS(nil)), Tag: reflect.StructTag(tag)})
+				fs = append(fs, reflect.StructField{Name: fmt.Sprintf("R%dm", len(fs)), Type: reflect.TypeOf(univ.NS2(nil)), Tag: reflect.StructTag(tag)})
+			}
 		}
 		fs = append(fs, reflect.StructField{Name: fmt.Sprintf("R%d", len(fs)), Type: t, Tag: reflect.StructTag(tag)})
 	}
@@ -578,8 +601,14 @@ func TestSig(l *SigLine) []SigDiv {
 				if got != "ok" && got != "reject" {
 					got = "ok"
 				}
+				// an invoked function whose last result is an error type that is never nil always
+				// "returns an error": Invoke must hand it back
+				lastErS := len(l.S.Rs) > 0 && l.S.Rs[len(l.S.Rs)-1].K == "plain" && l.S.Rs[len(l.S.Rs)-1].Ty == "erS"
+				var es ErS
 				if NormVerdict(l.Iv) != got {
 					add("verdict.invoke", fmt.Sprintf("want %s got %s (state %d): %v", l.Iv, got, state, ierr))
+				} else if got == "ok" && lastErS && len(l.Fp) == 0 && !errors.As(ierr, &es) {
+					add("class.invokeerr-lost", fmt.Sprintf("the invoked function returned a non-nil error of a concrete type, Invoke returned %v (state %d)", ierr, state))
 				} else if ierr == nil {
 					in, _ := infoStrings(ii.Inputs, nil)
 					if !eqStrings(in, wantIn) {
@@ -595,5 +624,11 @@ func TestSig(l *SigLine) []SigDiv {
 			followUp(c, a, nil, add, fmt.Sprintf("after Invoke (state %d)", state))
 		}
 	}
+	sigCbMu.Lock()
+	for _, n := range sigCbNames {
+		add("cb.name", n)
+	}
+	sigCbNames = nil
+	sigCbMu.Unlock()
 	return ds
 }
